@@ -108,3 +108,22 @@ def write_listfile(path, lines, style=0):
 		txt = eol + txt
 	with open(path, 'w', encoding='utf-8', newline='') as f:
 		f.write(txt)
+
+
+def list_cwd_setup(mode, scratch, base, rel, contig_lists):
+	"""Working-directory variants for list-file input. Returns (cwd, give_dir_option).
+
+	'decoy': the process runs in a directory that holds DIFFERENT genomes under the same relative names as the list entries
+	(the entries must still be resolved against the directory given on the command line).
+	'implicit': no directory option is given and the process has changed into the base directory after start-up
+	(entries are relative to the current working directory at the time the command runs)."""
+	if mode == 'decoy':
+		dd = os.path.join(scratch, 'decoy_cwd')
+		n = len(contig_lists)
+		other = [contig_lists[(i + 1) % n] if n > 1 and contig_lists[(i + 1) % n] != contig_lists[i] else [c[::-1] + 'ACGTTGCA' * 3 for c in contig_lists[i]]
+		         for i in range(n)]
+		write_genomes(dd, other, rel)
+		return dd, True
+	if mode == 'implicit':
+		return base, False
+	return None, True
